@@ -18,10 +18,10 @@ CONSTANTS ConfSet, Durs, Delays, Horizon, MaxChanges, MaxFails,
 VARIABLES now, pc, wake, started, lastReset,
           out,                           \* outcome of the run in progress: [k, d]
           retry,                         \* the retry number the next run will get
-          pStart, pEnd, pOut, runs, rs,  \* ghosts: previous run; rs = lastReset as seen when the run started
+          pStart, pEnd, pOut, pDelay, runs, rs,  \* ghosts: previous run (pDelay: the delay its error asked for); rs = lastReset as seen when the run started
           stopped,                       \* the stopper is set
           changes, fails, conf
-vars == <<now, pc, wake, started, lastReset, out, retry, pStart, pEnd, pOut, runs, rs, stopped, changes, fails, conf>>
+vars == <<now, pc, wake, started, lastReset, out, retry, pStart, pEnd, pOut, pDelay, runs, rs, stopped, changes, fails, conf>>
 
 Interval == conf.interval  Sharp == conf.sharp  Idle == conf.idle  InitDelay == conf.initdelay  Backoff == conf.backoff
 Max(a, b) == IF a >= b THEN a ELSE b
@@ -29,25 +29,25 @@ Max(a, b) == IF a >= b THEN a ELSE b
 Init == /\ conf \in ConfSet
         /\ now = 0 /\ pc = "init" /\ wake = conf.initdelay /\ started = 0 /\ lastReset = 0
         /\ out = [k |-> "ok", d |-> 0] /\ retry = 0
-        /\ pStart = 0 /\ pEnd = 0 /\ pOut = "none" /\ runs = 0 /\ rs = 0 /\ changes = 0 /\ fails = 0 /\ stopped = FALSE
+        /\ pStart = 0 /\ pEnd = 0 /\ pOut = "none" /\ pDelay = 0 /\ runs = 0 /\ rs = 0 /\ changes = 0 /\ fails = 0 /\ stopped = FALSE
 
 Outcomes == {[k |-> "ok", d |-> 0], [k |-> "perm", d |-> 0], [k |-> "exc", d |-> 0]} \cup {[k |-> "temp", d |-> d] : d \in Delays}
 
 HeadWith(dur, o) ==
   /\ pc \in {"init", "idle", "errsleep", "sleep", "poll"} /\ now >= wake
   /\ IF pc = "poll" /\ lastReset <= started          \* idle-only timers poll until something changes
-     THEN pc' = "poll" /\ wake' = now + Idle /\ UNCHANGED <<started, out, retry, pStart, pEnd, pOut, runs, rs, fails>>
+     THEN pc' = "poll" /\ wake' = now + Idle /\ UNCHANGED <<started, out, retry, pStart, pEnd, pOut, pDelay, runs, rs, fails>>
      ELSE IF Idle > 0 /\ now - lastReset < Idle
-     THEN pc' = "idle" /\ wake' = lastReset + Idle /\ UNCHANGED <<started, out, retry, pStart, pEnd, pOut, runs, rs, fails>>
+     THEN pc' = "idle" /\ wake' = lastReset + Idle /\ UNCHANGED <<started, out, retry, pStart, pEnd, pOut, pDelay, runs, rs, fails>>
      ELSE /\ (o.k # "ok" => fails < MaxFails) /\ fails' = IF o.k = "ok" THEN fails ELSE fails + 1
           /\ pc' = "run" /\ started' = now /\ wake' = now + dur /\ out' = o /\ runs' = runs + 1 /\ rs' = lastReset
-          /\ UNCHANGED <<retry, pStart, pEnd, pOut>>
+          /\ UNCHANGED <<retry, pStart, pEnd, pOut, pDelay>>
   /\ UNCHANGED <<now, lastReset, changes, conf, stopped>>
 LoopHead == \E dur \in Durs : \E o \in Outcomes : HeadWith(dur, o)
 
 End ==
   /\ pc = "run" /\ now >= wake
-  /\ pStart' = started /\ pEnd' = now /\ pOut' = out.k
+  /\ pStart' = started /\ pEnd' = now /\ pOut' = out.k /\ pDelay' = out.d
   /\ retry' = IF out.k \in {"temp", "exc"} THEN retry + 1 ELSE 0
   /\ IF stopped THEN pc' = "done" /\ wake' = now
      ELSE IF out.k = "temp" THEN pc' = "errsleep" /\ wake' = now + out.d
@@ -61,16 +61,16 @@ End ==
   /\ UNCHANGED <<now, started, lastReset, out, runs, rs, changes, fails, conf, stopped>>
 
 Change == /\ changes < MaxChanges /\ changes' = changes + 1 /\ lastReset' = now
-          /\ UNCHANGED <<now, pc, wake, started, out, retry, pStart, pEnd, pOut, runs, rs, fails, conf, stopped>>
+          /\ UNCHANGED <<now, pc, wake, started, out, retry, pStart, pEnd, pOut, pDelay, runs, rs, fails, conf, stopped>>
 
 Stop ==   \* the stopper is set: every sleep is interrupted, a running handler is left to finish
   /\ ~stopped /\ stopped' = TRUE
   /\ IF pc \in {"done", "run"} THEN UNCHANGED <<pc, wake>> ELSE pc' = "done" /\ wake' = now
-  /\ UNCHANGED <<now, started, lastReset, out, retry, pStart, pEnd, pOut, runs, rs, changes, fails, conf>>
+  /\ UNCHANGED <<now, started, lastReset, out, retry, pStart, pEnd, pOut, pDelay, runs, rs, changes, fails, conf>>
 
 Urgent == (pc = "run" /\ now >= wake) \/ (pc \in {"init", "idle", "errsleep", "sleep", "poll"} /\ now >= wake)
 Tick == /\ now < Horizon /\ ~Urgent /\ now' = now + 1
-        /\ UNCHANGED <<pc, wake, started, lastReset, out, retry, pStart, pEnd, pOut, runs, rs, changes, fails, conf, stopped>>
+        /\ UNCHANGED <<pc, wake, started, lastReset, out, retry, pStart, pEnd, pOut, pDelay, runs, rs, changes, fails, conf, stopped>>
 
 Next == LoopHead \/ End \/ Change \/ Tick
 Spec == Init /\ [][Next]_vars
@@ -84,7 +84,8 @@ AfterOk   == (JustStarted /\ runs > 1 /\ pOut \in {"ok", "perm"} /\ Interval > 0
                 started = Max(pEnd + Interval, IF Idle > 0 THEN rs + Idle ELSE 0)
 AfterOkSharp == (JustStarted /\ runs > 1 /\ pOut \in {"ok", "perm"} /\ Interval > 0 /\ Sharp) =>
                 started = Max(pStart + Interval * (((pEnd - pStart) \div Interval) + 1), IF Idle > 0 THEN rs + Idle ELSE 0)
-AfterTemp == (JustStarted /\ runs > 1 /\ pOut = "temp") => started >= pEnd + 1
+\* after a failed run: the error's delay (or the handler's backoff) instead of the interval -- also when it is zero: at once
+AfterTemp == (JustStarted /\ runs > 1 /\ pOut = "temp") => started = Max(pEnd + pDelay, IF Idle > 0 THEN rs + Idle ELSE 0)
 AfterExc  == (JustStarted /\ runs > 1 /\ pOut = "exc") => started = Max(pEnd + Backoff, IF Idle > 0 THEN rs + Idle ELSE 0)
 PermanentEndsIt == ~(JustStarted /\ runs > 1 /\ pOut = "perm")       \* C11 for timers
 =============================================================================
